@@ -64,6 +64,8 @@ def main():
         W = "/tmp/wt/r9-%s" % pid  # round 9
     if any(m in ("m28", "m29", "m30") for m in ms):
         W = "/tmp/wt/r10-%s" % pid  # round 10
+    if any(m in ("m31", "m32", "m33") for m in ms):
+        W = "/tmp/wt/r11-%s" % pid  # round 11
     take_slot()
     for m in ms:
         out = os.path.join(W, "_out", m)
